@@ -28,10 +28,11 @@ META = dict(
 HARNESSES = [(("conc", "cov", ["conc.cpp"]), dict(extra=["-rdynamic"], cov_sources=["canary.cpp"])),
              (("conc_tsan", "tsan", ["conc_tsan.cpp", "canary.cpp"]), {})]
 
-NOPS = 11         # library ops O1..O11 (ids 0..10); the canaries follow
+NOPS = 12         # library ops O1..O12 (ids 0..11); the canaries follow
 OPNAMES = ["O1_mssm_gm2calc_build_eval", "O2_thdm_build_eval", "O3_mssm_slha_convert_eval",
            "O4_shared_mssm_readonly", "O5_shared_thdm_readonly", "O6_loopfunction_batch", "O7_slha_parse_fill",
-           "O8_thdm_slha_parse_build_eval", "O9_mssm_non_resummed_copy", "O10_thdm_sparse_build_eval", "O11_error_paths_nonfinite"]
+           "O8_thdm_slha_parse_build_eval", "O9_mssm_non_resummed_copy", "O10_thdm_sparse_build_eval", "O11_error_paths_nonfinite",
+           "O12_nonresummed_tachyon_window_shared"]
 
 
 def _run(cmd, env=None, timeout=3000):
@@ -107,7 +108,7 @@ def run(ctx):
 
     # ---- schedule pass ---------------------------------------------------------------------
     tasks = [(o, p) for o in range(NOPS) for p in (0, 1)]
-    main_pairs = [((a, 0), (b, 1)) for a in range(NOPS) for b in range(a, NOPS)] + [((3, 0), (3, 0)), ((4, 0), (4, 0)), ((3, 1), (4, 1)), ((8, 0), (3, 0)), ((8, 1), (8, 1))]
+    main_pairs = [((a, 0), (b, 1)) for a in range(NOPS) for b in range(a, NOPS)] + [((3, 0), (3, 0)), ((4, 0), (4, 0)), ((3, 1), (4, 1)), ((8, 0), (3, 0)), ((8, 1), (8, 1)), ((11, 0), (11, 0)), ((11, 1), (11, 1)), ((11, 0), (3, 0))]
     jobs = []
     if ctx.quick:
         for pr in main_pairs:
@@ -128,7 +129,7 @@ def run(ctx):
         for tr in [((5, 0), (5, 1), (1, 0)), ((3, 0), (3, 0), (0, 1)), ((4, 0), (4, 0), (1, 1)), ((6, 0), (6, 1), (2, 0)), ((0, 0), (1, 0), (5, 1))]:
             jobs.append((conc, repo, 1, 1, True, tr))            # three threads
     # longest first
-    weight = {0: 13, 1: 31, 2: 56, 3: 20, 4: 47, 5: 1, 6: 60, 7: 35, 8: 25, 9: 40, 10: 45}
+    weight = {0: 13, 1: 31, 2: 56, 3: 20, 4: 47, 5: 1, 6: 60, 7: 35, 8: 25, 9: 40, 10: 45, 11: 30}
     jobs.sort(key=lambda j: -(1000 if j[3] == 0 else 1) * weight[j[5][0][0]])
     nsched = 0
     outcomes = set()
